@@ -83,7 +83,10 @@ impl<C: CounterTrait> Checker<C> for ThrottlingChecker<C> {
                     let await_time = expected_time as i64 - current_time_in_ms as i64;
                     if await_time > 0 {
                         last_pass_time_arc.store(expected_time, Ordering::SeqCst);
-                        return TokenResult::new_should_wait(await_time as u64);
+                        // `await_time` is in milliseconds, `TokenResult::Wait` carries nanoseconds
+                        return TokenResult::new_should_wait(
+                            await_time as u64 * utils::unix_time_unit_offset(),
+                        );
                     } else {
                         return TokenResult::new_pass();
                     }
